@@ -81,7 +81,18 @@ erroneous statements (read through the emit/diag hooks) and the points where the
 readings are SPEC-DRIFT only.  No finding on the unchanged tree (one named deviation: `CODEPAGE existing,unknown` is rejected
 although the manual calls the second parameter meaningless then; kept as drift-level).
 Mutations tried for the extension (scratch copies, quick tier, VERIF_REPO; number of rejected histories of ~6 000):
-    MUTATION_RESULTS
+    * asmallg.c CodeCODEPAGE: memcpy from CurrTransTable->Table instead of Source->Table (second name ignored) -> caught, 20
+      (8 before CharMap_Gen4s was added: only histories of >= 3 statements with an edited active page show it)
+    * asmallg.c CodeRESTORE: `CurrTransTable = Old->SaveTransTable` dropped                               -> caught, 5
+      (needs SAVE, switch, edit, RESTORE: the exhaustive 4-statement generator CharMap_Gen4s + simulated histories)
+    * asmallg.c CodeCHARSET i,"string": the characters of the string translated through the table          -> caught, 458
+    * asmallg.c CodeCODEPAGE: second name not upper-cased in the default case mode                          -> caught, 373
+      (`codepage zeta,standard` rejected: "documented as valid, but the assembly fails")
+    * asmsub.c TranslateString: table indexed with 7 bits                                                   -> caught, 2952
+    * as.c InitPass / AssembleFile: pages survive into the next pass (no ClearCodepages, STANDARD reused)   -> caught, 653
+      (the every-fourth histories rendered with a forward reference)
+    * asmallg.c CodeCHARSET without arguments: only entries 0..127 reset                                    -> caught, 57
+    * asmpars.c NonZString2Int: only the last character of a multi-character constant translated            -> caught, 938
 """
 import os
 
